@@ -284,9 +284,24 @@ def row_before(r1, r2, keys):
     return False
 
 
+KNOWN_SETOP_ALL = "setop-all-evaluated-as-semi-anti-join"
+
+
 def compare(case, got_rows, got_err):
-    """Return None if the engine's answer is allowed by the reference, else a message."""
-    exp = case["expect"]
+    """Return None if the engine's answer is allowed by the reference, else a message.
+
+    A message that starts with "KNOWN[<key>]" identifies a recorded engine defect precisely (see
+    known_findings.json): the engine's answer differs from the reference but equals the reference
+    evaluated with INTERSECT ALL / EXCEPT ALL read as semi / anti joins (Rel.AltPlan)."""
+    msg = _compare(case, case["expect"], got_rows, got_err)
+    alt = case.get("expect_alt")
+    if msg and alt is not None and alt != case["expect"] and got_err is None:
+        if _compare(case, alt, got_rows, got_err) is None:
+            return f"KNOWN[{KNOWN_SETOP_ALL}] INTERSECT ALL / EXCEPT ALL lose multiplicities (engine evaluates them as semi/anti joins): {msg}"
+    return msg
+
+
+def _compare(case, exp, got_rows, got_err):
     if exp["err"]:
         return None  # reference evaluation errs (e.g. division by zero): engine may fail or succeed
     if got_err is not None:
